@@ -169,7 +169,7 @@ def program_lexemes(p):
 
 @composite
 def damage_case(d):
-    p = family.member_of(d, violating=0.3, opts={"small": True})
+    p = family.member_of(d, violating=0.3, opts={"small": True, "decorate": True})
     lex = program_lexemes(p)
     body_start = 0
     # skip the 42 header lexemes for most of the damage (12 lines)
